@@ -1,10 +1,22 @@
 use koto_memory::Ptr;
+#[cfg(not(koto_verif))]
 use std::{
     collections::{HashMap, hash_map::DefaultHasher},
     fmt,
     hash::{Hash, Hasher},
     num::TryFromIntError,
     ops::Range,
+};
+#[cfg(koto_verif)]
+use {
+    crate::verif::HashMap,
+    std::{
+        collections::hash_map::DefaultHasher,
+        fmt,
+        hash::{Hash, Hasher},
+        num::TryFromIntError,
+        ops::Range,
+    },
 };
 
 use crate::{StringSlice, error::InternalError};
